@@ -340,7 +340,12 @@ func (e *Exec) Expand(op Op) []func() Op {
 
 // treeSum is a digest over names, modes, sizes, contents and modification times of everything below dir
 // (except the top level entry `skip`): any creation, modification or deletion changes it.
-func treeSum(dir, skip string) string {
+func treeSum(dir, skip string) string { return treeSumOpt(dir, skip, true) }
+
+// treeSumContent ignores modification times: names, modes, sizes and file contents only.
+func treeSumContent(dir string) string { return treeSumOpt(dir, "", false) }
+
+func treeSumOpt(dir, skip string, mtimes bool) string {
 	h := sha256.New()
 	lines := []string{}
 	_ = filepath.WalkDir(dir, func(path string, d fs.DirEntry, err error) error {
@@ -360,7 +365,21 @@ func treeSum(dir, skip string) string {
 			lines = append(lines, "ERR "+rel)
 			return nil
 		}
-		line := fmt.Sprintf("%s %v %d %d", rel, fi.Mode(), fi.Size(), fi.ModTime().UnixNano())
+		if !mtimes && d.IsDir() && d.Name() == "_uploads" {
+			// an empty folder for upload sessions is not content (a collection removes it when it comes by)
+			if ents, err := os.ReadDir(path); err == nil && len(ents) == 0 {
+				return nil
+			}
+		}
+		mt := int64(0)
+		if mtimes {
+			mt = fi.ModTime().UnixNano()
+		}
+		size := fi.Size()
+		if fi.IsDir() && !mtimes {
+			size = 0
+		}
+		line := fmt.Sprintf("%s %v %d %d", rel, fi.Mode(), size, mt)
 		if fi.Mode().IsRegular() {
 			b, _ := os.ReadFile(path)
 			sum := sha256.Sum256(b)
